@@ -26,7 +26,23 @@ ENTRIES = [
 ]
 
 
+def _raises(res: dict) -> set:
+    return {p["raise"] for p in res["paths"] if "raise" in p}
+
+
 def run(prog, job: dict) -> dict:
+    from .. import tunables
+
+    return tunables.scaled_or_plain(_run, prog, job, _raises)
+
+
+def run_file(prog, job: dict) -> dict:
+    from .. import tunables
+
+    return tunables.scaled_or_plain(_run_file, prog, job, _raises)
+
+
+def _run(prog, job: dict) -> dict:
     integ, kind, physical, fs, logical = job["integ"], job["kind"], job["physical"], job["frame_size"], job["logical"]
 
     def scenario(it: Interp) -> dict:
@@ -110,7 +126,7 @@ def run(prog, job: dict) -> dict:
 SINKS = [("in-memory buffer (BytesIO)", "BytesIO"), ("raw unbuffered file/socket (FileIO)", "FileIO"), ("buffered file (open(..., 'wb'))", "BufferedWriter"), ("duck-typed object with write()", None)]
 
 
-def run_file(prog, job: dict) -> dict:
+def _run_file(prog, job: dict) -> dict:
     """flat_stream_to_file: what has reached the caller's sink whenever the input is asked for the next statement."""
     integ, physical, fs = job["integ"], job["physical"], job["frame_size"]
 
